@@ -338,6 +338,57 @@ def check(run):
                 ops.append({"op": "build", "pkg": "Main", "inputs": ["main.gom"]})
             ops.append({"op": "link", "pkgs": ["Lib", "Main"]})
             art_cases.append((which, bad, {"dir": os.path.join(vlib.BUILD, "tmp", "c04art%d" % (i + 1)), "ops": ops}))
+        # stale but well-formed: every entry of every table of the embedded interface removed (or the table emptied) while the
+        # recorded hash stays — validation has to refuse it; nothing downstream may meet the inconsistent tables
+        def tables(x, path_, acc):
+            if isinstance(x, (dict, list)) and path_:
+                acc.append(path_)
+            if isinstance(x, dict):
+                for kk, vv in x.items():
+                    if len(path_) < 4:
+                        tables(vv, path_ + [kk], acc)
+            return acc
+
+        n_sys = 0
+        for which in sorted(arts):
+            j0 = json.loads(arts[which])
+            root_path = [] if which.endswith(".interface") else ["interface"]
+            sub = j0
+            for step in root_path:
+                sub = sub[step]
+            for tp in tables(sub, [], []):
+                cont = sub
+                for step in tp:
+                    cont = cont[step]
+                if not isinstance(cont, (dict, list)) or not cont:
+                    continue
+                keys = list(cont.keys()) if isinstance(cont, dict) else list(range(len(cont)))
+                if len(keys) > 8 and run.tier == "quick":
+                    keys = rng.sample(keys, 8)
+                for kk in keys + [None]:
+                    j = copy.deepcopy(j0)
+                    c2 = j
+                    for step in root_path + tp:
+                        c2 = c2[step]
+                    if kk is None:
+                        c2.clear()
+                    elif isinstance(c2, dict):
+                        del c2[kk]
+                    else:
+                        c2.pop(kk)
+                    bad = json.dumps(j)
+                    ops = list(base_ops)
+                    if which == "out/Main.core":
+                        ops.append({"op": "build", "pkg": "Main", "inputs": ["main.gom"]})
+                    ops.append({"op": "write", "path": which, "text": bad})
+                    if which == "out/Lib.interface":
+                        ops += [{"op": "check", "pkg": "Main", "inputs": ["main.gom"]}, {"op": "build", "pkg": "Main", "inputs": ["main.gom"]}]
+                    elif which == "out/Lib.core":
+                        ops.append({"op": "build", "pkg": "Main", "inputs": ["main.gom"]})
+                    ops.append({"op": "link", "pkgs": ["Lib", "Main"]})
+                    art_cases.append((which, bad, {"dir": os.path.join(vlib.BUILD, "tmp", "c04arts%d" % n_sys), "ops": ops}))
+                    n_sys += 1
+        art_stats["stale_table_cases"] = n_sys
         ares = vlib.run_harness("sep", [c[2] for c in art_cases], shards=vlib.NCPU, timeout=1800)
         for (which, bad, case), r in zip(art_cases, ares):
             art_stats["cases"] += 1
